@@ -122,6 +122,13 @@ class Gen:
 # ---------------------------------------------------------------------------------------
 HEADER = ["from rt import *"]          # line 1
 
+# Surface forms of a simple statement: each runs the marker M(k) exactly once and falls through (in the models they are all
+# `simple k`); cfg_builder.go has one case per statement kind (assign, augmented/annotated assign, assert, del, global, import,
+# pass, expression, conditional expression, walrus, lambda), so the generator has to spell them all.
+SIMPLE_FORMS = ["M(%d)", "M(%d)", "_v = M(%d)", "_v: object = M(%d)", "NS.acc += [M(%d)]", "assert M(%d) is None", "_d = M(%d); del _d",
+                "global _g; M(%d)", "import os; M(%d)", "from os import path; M(%d)", "M(%d); pass", "_v = M(%d) if T else 0",
+                "M(%d) if T else 0", "_w = (_y := M(%d))", "_l = lambda: 0; M(%d)", "NS.x = M(%d)", "print(end='', *[M(%d)][:0])"]
+
 
 def layout(module, plain=False, deco_rng=None):
     """deco_rng: when given (C04 only; such files are not executed by CPython), defs and classes randomly get decorator
@@ -149,7 +156,9 @@ def layout(module, plain=False, deco_rng=None):
     def st(s, ind):
         c = s[0]
         if c == 'simple':
-            k = emit("M(%d)" % (len(lines) + 1), ind)
+            kk = len(lines) + 1
+            form = SIMPLE_FORMS[((kk * 2654435761) >> 5) % len(SIMPLE_FORMS)] if deco_rng is None else "M(%d)"
+            k = emit(form % kk, ind)
             return ('simple', k)
         if c == 'pass':
             return ('pass', emit("pass", ind))
